@@ -31,7 +31,18 @@ mod imp {
 
     fn gen_input_full(rng: &mut Rng, i: u64) -> Vec<u8> {
         let lens = [0usize, 1, 2, 7, 8, 64, 65, 300, 4096];
-        match i % 11 {
+        match i % 12 {
+            11 => {
+                // every length 0..=300 (exact-size effects such as "one byte left for the last field")
+                let len = (i / 12 % 301) as usize;
+                match i / 12 / 301 % 5 {
+                    0 => vec![0x00; len],
+                    1 => vec![0x01; len],
+                    2 => vec![0xff; len],
+                    3 => (0..len).map(|k| k as u8).collect(),
+                    _ => rng.bytes(len),
+                }
+            }
             8 | 9 => {
                 // long runs of WELL-FORMED text dense in multi-byte characters (so that a character
                 // straddles every capacity offset 64 / 128 / 256 for some alignment), behind a few
@@ -48,7 +59,7 @@ mod imp {
                         *b |= 1; // booleans true: optional members present
                     }
                 }
-                let homogeneous = i % 11 == 9;
+                let homogeneous = i % 12 == 9;
                 let w = 2 + rng.usize(3);
                 let mut t = String::new();
                 for _ in 0..rng.usize(4) {
@@ -81,8 +92,8 @@ mod imp {
             }
             0 => {
                 // single-byte repeats
-                let b = (i / 11 % 256) as u8;
-                vec![b; lens[(i / 11 / 256) as usize % lens.len()]]
+                let b = (i / 12 % 256) as u8;
+                vec![b; lens[(i / 12 / 256) as usize % lens.len()]]
             }
             1 => {
                 let n = rng.usize(4097);
@@ -180,7 +191,8 @@ mod imp {
             let i = case - 1;
             let mut rng = Rng::derive(seed, "c19", case);
             let bytes = gen_input(&mut rng, i, rep.light);
-            if !rep.begin(match i % 11 {
+            if !rep.begin(match i % 12 {
+                11 => "every-length-0..=300",
                 0 => "single-byte-repeat",
                 3 | 4 => "utf8-biased",
                 5 | 6 => "long-lengths",
@@ -191,6 +203,29 @@ mod imp {
             }
             rep.input(&bytes, bytes.len() >= 2);
             rep.sample(|| format!("{} bytes: {}", bytes.len(), crate::cbor::hex(&bytes[..bytes.len().min(48)])));
+            // the second entry point of the trait (what fuzz_target!(|x: T|) uses): the value is built
+            // from ALL remaining bytes
+            if i % 2 == 0 || bytes.len() <= 300 {
+                let r = guard(|| ctap2::Request::arbitrary_take_rest(Unstructured::new(&bytes)));
+                match r {
+                    Ok(Ok(req)) => check2(rep, &req, &bytes),
+                    Ok(Err(e)) => err_ok(rep, "ctap2(take_rest)", &e, &bytes),
+                    Err(p) => rep.violation(&format!("C19|ctap2(take_rest)|panic|{}", panic_site(&p)), p, &bytes),
+                }
+                let r = guard(|| ctap1::Request::arbitrary_take_rest(Unstructured::new(&bytes)));
+                match r {
+                    Ok(Ok(req)) => check1(rep, &req, &bytes),
+                    Ok(Err(e)) => err_ok(rep, "ctap1(take_rest)", &e, &bytes),
+                    Err(p) => rep.violation(&format!("C19|ctap1(take_rest)|panic|{}", panic_site(&p)), p, &bytes),
+                }
+                let r = guard(|| authenticator::Request::arbitrary_take_rest(Unstructured::new(&bytes)));
+                match r {
+                    Ok(Ok(authenticator::Request::Ctap1(req))) => check1(rep, &req, &bytes),
+                    Ok(Ok(authenticator::Request::Ctap2(req))) => check2(rep, &req, &bytes),
+                    Ok(Err(e)) => err_ok(rep, "combined(take_rest)", &e, &bytes),
+                    Err(p) => rep.violation(&format!("C19|combined(take_rest)|panic|{}", panic_site(&p)), p, &bytes),
+                }
+            }
             // ctap2
             let r = guard(|| {
                 let mut u = Unstructured::new(&bytes);
